@@ -56,7 +56,6 @@ enum PKind {
 }
 
 struct FuncScope {
-    vars: Vec<(String, usize)>,
     /// per var: assigned bits (formals: all)
     assigned: Vec<Vec<bool>>,
 }
@@ -410,7 +409,7 @@ impl MGen<'_, '_> {
         }
         let saved_back = self.captured_back;
         self.captured_back = false;
-        self.fscope = Some(FuncScope { vars: vars.clone(), assigned });
+        self.fscope = Some(FuncScope { assigned });
         let mut body = Vec::new();
         for l in nf..nf + nl {
             let w = vars[l].1;
